@@ -103,6 +103,12 @@ META = {
   "note": "Wrong tokens are sampled (absent, random, one bit off, another wallet's); create_mwixnet_req is not driven.",
   "technique": "runtime monitoring: token sweep with database frame condition + masked/unmasked differential execution",
  },
+ "C18": {
+  "text": "Runtime monitoring on a real grin_chain::Chain that the harness reorganises block by block: after every reorganisation the recipient's records, balance figures and coin selection are judged against kernel and UTXO membership read from the chain.",
+  "design_ref": "DESIGN.md section 5 C18",
+  "note": "Fork blocks carry neutral coinbases; flip-flop depth is bounded to 0-3 blocks below the receiving block.",
+  "technique": "runtime monitoring: chain-truth oracle over generated reorganisation scenarios on a real chain",
+ },
  "C16": {
   "text": "Runtime monitoring: restores and repairs are run on chains produced by generated wallet activity, with node paging varied, and judged against chain truth read directly from grin_chain (UTXO membership, value, height, coinbase flag, maturity, account, balances) plus idempotence of a second scan.",
   "design_ref": "DESIGN.md section 5 C16",
